@@ -68,6 +68,16 @@ def r2_statics(ctx, F):
         if tl:
             by.setdefault("thread-local storage", []).append(s)
             continue
+        # mutable state about *values of one evaluation* (cycle-guard stacks, depth counters: they hold value
+        # addresses or per-evaluation counts) must be per thread: a lock makes it race-free but still shared, and frozen
+        # values have the same address in every thread
+        if re.search(r"layout::pointer::RawPointer|layout::identity::ValueIdentity|layout::value::Value<", s["ty"]) \
+                and not re.search(r"LazyLock<\(values::layout::heap::heap_type::FrozenHeapRef", s["ty"]):
+            ctx.bad("C20.R2", "static-shares-value-addresses:%s" % s["path"],
+                    "static `%s: %s` keeps addresses of values in process-wide mutable state (not a thread-local): "
+                    "evaluations on different threads see each other's entries - e.g. a cycle guard reports a cycle "
+                    "because another thread is serialising the same frozen value" % (s["path"], s["ty"][:90]))
+            continue
         reason = None
         for p, r in STATIC_OK:
             if re.search(p, s["ty"]):
